@@ -28,6 +28,80 @@ TITLES = {
 
 # property -> (technique, level text, level note, design section)
 CHECKS = {
+    "C07": (
+        "model-based stateful testing: Hypothesis RuleBasedStateMachine histories + exhaustive enumeration of short "
+        "histories, each operation compared with the same operation in a fresh process-state (fork-server child), plus "
+        "step invariants",
+        "Histories of build / evaluate-common / evaluate-group / set-config / model_description / rebuild over 8 formulas "
+        "x 4 frames (one with unseen levels, one with the shape of the training frame) are executed in one process; every "
+        "result must equal the result of that single operation in a pristine child, and after every step the training "
+        "matrices of all live designs, every earlier result array, the caller's frames (values, dtypes, index, column "
+        "order, attrs), the caller's namespace, formulae.config and the TRANSFORMS registry must be unchanged.  All "
+        "histories of length <= 3 over a reduced pool and all build; set-config; evaluate; set-config; evaluate histories "
+        "are enumerated; the state machine draws histories of up to 30 steps.",
+        "Exploration.  'Fresh' means a fork-server child with the modules imported; import-time state is shared by construction.",
+        "DESIGN.md section 3, C07",
+    ),
+    "C11": (
+        "exhaustive enumeration of scope configurations + Hypothesis multi-name formulas; oracle = first defining scope in "
+        "the documented order, observed through distinct sentinels",
+        "For a probe name used as argument, back-quoted argument (also with a space), callee and dotted callee (1-3 "
+        "attribute steps), every subset of {frame column, built-in table, caller locals, caller globals, extra_namespace} "
+        "binds a distinct sentinel that also encodes the stack level; callers are synthesised with exec, nested 4 deep with "
+        "separate globals; env = 0..3 and depths beyond the stack.  The design column reveals which binding was used.",
+        "Exploration; exhaustive for the enumerated roles and depths.",
+        "DESIGN.md section 3, C11",
+    ),
+    "C12": (
+        "Hypothesis-generated argument expressions; differential against Python's eval on the same text, recording "
+        "function for argument kinds, name normal form and identity clauses",
+        "Operator trees over columns, number / string / True / False / None literals, + - * / **, unary signs, comparisons, "
+        "parentheses, nested and keyword calls are rendered with drawn whitespace and placed in probe(e), I(e) and {e}; the "
+        "design column must equal eval(text) (rtol 1e-12) and the recording function must see the same argument kinds, "
+        "keyword names and literal types; the term name must be the single-space normal form, whitespace variants must be "
+        "one term, expressions with different Python ASTs two terms.",
+        "Exploration.  One open known finding (KF-C12-1: unary sign / chained ** inside calls) excluded by a structural predicate.",
+        "DESIGN.md section 3, C12",
+    ),
+    "C14": (
+        "Hypothesis-generated vectors and parameters; mathematical validity predicates with stated tolerances",
+        "center / scale / standardize: mean 0, sd 1, same affine map on later data; bs: shape, non-negativity, partition of "
+        "unity inside the boundary knots, training knots reused, every invalid parameter combination refused with "
+        "ValueError; poly: orthonormal, orthogonal to the constant, same span as the powers, raw = exact powers, remembered "
+        "coefficients unchanged by later data.  Vectors with ties, offsets up to 1e7, small n, explicit / unsorted knots, "
+        "bounds inside and outside the data.",
+        "Exploration.  One open known finding (KF-C14-1: inner knot equal to a boundary knot) excluded on exactly the rows at that bound.",
+        "DESIGN.md section 3, C14",
+    ),
+    "C15": (
+        "Hypothesis-generated (response form, right-hand side, frame); oracle = response matrix recomputed from the frame "
+        "and exact comparison of predictor matrices across responses",
+        "Numeric, categorical (str / Categorical / ordered), y[ident], y['quoted level'], absent levels, call responses, "
+        "prop / p / proportion with column and constant trials are recomputed from the frame; invalid responses must be "
+        "refused; the common and group matrices of `R ~ rhs`, `y ~ rhs` and `rhs` alone must be identical, and a design "
+        "without `~` has no response.",
+        "Exploration.",
+        "DESIGN.md section 3, C15",
+    ),
+    "C16": (
+        "Hypothesis-generated helper calls on training and new frames; pointwise oracles recomputed with numpy and "
+        "exact synonymy of alias pairs",
+        "binary (integer, string, boolean-expression input; success present, absent, omitted), offset (column, int, float, "
+        "negative and arithmetic constants, calls), prop (column, constant, keyword and expression trials, invalid counts), "
+        "I(e) / {e}, and every alias pair written both ways are evaluated at training time and on new frames made of "
+        "training rows and of fresh values.",
+        "Exploration.",
+        "DESIGN.md section 3, C16",
+    ),
+    "C17": (
+        "Hypothesis-generated designs with histories of up to 3 derivations; invariants checked on every reachable object",
+        "Slices (keys, order, contiguity, cover), indexing by term name and refusal of unknown names, equality of "
+        "design_matrix / np.asarray / as_dataframe / tuple unpacking, unique labels, aligned row counts, str and repr "
+        "reporting the actual shape, and non-aliasing of derived and training objects, for training objects and objects "
+        "derived by evaluate_new_data (from the training object or chained) with and without new groups.",
+        "Exploration.",
+        "DESIGN.md section 3, C17",
+    ),
     "C05": (
         "exhaustive small effect families + Hypothesis-generated group items; oracle = block structure recomputed from labels "
         "and frame (clause A) and linear-algebra span equality with J (.) R_e (clause B)",
